@@ -356,6 +356,9 @@ Proof.
   unfold heap_realloc_raw. rewrite Hnz, E0. unfold get_ptr_node.
   change (negb (Z.land (b_addr b) (ALLOC_ALIGN - 1) =? 0)) with (ptr_misaligned (b_addr b)). rewrite Hmis, Hw.
   pose proof (Hflag x Hxin) as Hfx. fold a in Hfx. rewrite Hfx, Hu.
+  assert (Esz0 : (n_size m a =? 0) = false).
+  { pose proof (mi_size _ _ _ _ _ _ HM x Hxin) as Hq. fold a in Hq. rewrite Hq. apply Z.eqb_neq. lia. }
+  rewrite Esz0. cbn [andb negb].
   assert (Ea0 : (a =? 0) = false) by (apply Z.eqb_neq; lia). rewrite Ea0.
   destruct (size_too_large n) eqn:Etl.
   { eexists. eexists. eexists. eexists. eexists. split; [reflexivity|]. split; [reflexivity|]. split; [exact Hrep|].
